@@ -1,5 +1,5 @@
 //! Chunk-list harnesses with the global allocator replaced by the ledger stub (bounded in the number of chunks):
-//! new_chunk, reset, Drop, chunk iteration, accounting, and the slow path with nondeterministic refusals and limits.
+//! new_chunk, reset, Drop, chunk iteration, accounting.
 use super::util::*;
 use crate::*;
 use core::alloc::Layout;
@@ -133,111 +133,7 @@ fn k_list_2() { list_h::<8>(2) }
 #[kani::unwind(8)]
 fn k_list_3() { list_h::<1>(3) }
 
-/// constructor with capacity: honoured, accounted, nothing kept on failure
-#[kani::proof]
-#[kani::stub(core_alloc::alloc::alloc, stub_alloc)]
-#[kani::stub(core_alloc::alloc::dealloc, stub_dealloc)]
-#[kani::unwind(8)]
-fn k_with_capacity() {
-    unsafe { reset_ledger(); REFUSE_NONDET = true; }
-    let caps = [0usize, 1, 100, 5000, isize::MAX as usize, usize::MAX - 3, usize::MAX];
-    let ci: usize = kani::any();
-    kani::assume(ci < 7);
-    let cap = caps[ci];
-    let r = Bump::<8>::try_with_min_align_and_capacity(cap);
-    let was_ok = r.is_ok();
-    match r {
-        Ok(b) => {
-            assert!(b.chunk_capacity() >= cap, "C18 capacity honoured");
-            unsafe { assert!(ledger_live_count() == if cap == 0 { 0 } else { 1 }); }
-            check_accounting(&b);
-            assert!(b.allocation_limit().is_none());
-            drop(b);
-        }
-        Err(_) => {}
-    }
-    unsafe { assert!(ledger_live_count() == 0, "C03/C09 nothing kept after Err or drop"); }
-    kani::cover!(was_ok && cap == 5000);
-}
-
-/// the slow path: one request that does not fit in the current chunk; CONCRETE request sizes (a symbolic chunk size costs
-/// CBMC tens of GB), symbolic limit, the allocator may refuse any request
-fn slow_h<const M: usize>(start_with_chunk: bool, size: usize, align: usize) {
-    unsafe { reset_ledger(); }
-    let b = Bump::<M>::with_min_align();
-    if start_with_chunk {
-        push_chunk(&b, 64);
-        set_finger(&b, if kani::any() { 0 } else { 16 });
-    }
-    unsafe { REFUSE_NONDET = true; }
-    let lims = [None, Some(0usize), Some(100), Some(447), Some(448), Some(512), Some(5000), Some(usize::MAX)];
-    let li: usize = kani::any();
-    kani::assume(li < 8);
-    let lim = lims[li];
-    b.set_allocation_limit(lim);
-    let l = Layout::from_size_align(size, align).unwrap();
-    let held0 = b.allocated_bytes();
-    let (c0, f0) = (b.current_chunk_footer.get(), finger(&b));
-    let live0 = unsafe { ledger_live_count() };
-    let r = b.try_alloc_layout(l);
-    let held1 = b.allocated_bytes();
-    match r {
-        Ok(p) => {
-            let p = p.as_ptr() as usize;
-            assert!(p % l.align() == 0 && p % M == 0);
-            if held1 != held0 {
-                if let Some(lm) = lim { assert!(held1 <= lm, "C07 limit never exceeded by acquiring memory"); }
-                assert!(b.current_chunk_footer.get() != c0);
-                assert!(data(&b) <= p && p + l.size() <= footer_addr(&b), "C01 inside the new chunk");
-                unsafe { assert!(ledger_live_count() == live0 + 1); }
-            } else {
-                assert!(b.current_chunk_footer.get() == c0, "C07 fits in the current chunk whatever the limit");
-            }
-        }
-        Err(_) => {
-            assert!(b.current_chunk_footer.get() == c0 && finger(&b) == f0 && held1 == held0, "C09 failure changes nothing");
-            unsafe { assert!(ledger_live_count() == live0, "C09 holds exactly the memory it held before"); }
-        }
-    }
-    check_accounting(&b);
-    kani::cover!(r.is_ok() && held1 != held0);
-    kani::cover!(r.is_err());
-    core::mem::forget(b);
-}
-#[kani::proof]
-#[kani::stub(core_alloc::alloc::alloc, stub_alloc)]
-#[kani::stub(core_alloc::alloc::dealloc, stub_dealloc)]
-#[kani::unwind(14)]
-fn k_slow_fresh() { slow_h::<1>(false, 100, 8) }
-#[kani::proof]
-#[kani::stub(core_alloc::alloc::alloc, stub_alloc)]
-#[kani::stub(core_alloc::alloc::dealloc, stub_dealloc)]
-#[kani::unwind(14)]
-fn k_slow_chunk() { slow_h::<1>(true, 100, 8) }
-#[kani::proof]
-#[kani::stub(core_alloc::alloc::alloc, stub_alloc)]
-#[kani::stub(core_alloc::alloc::dealloc, stub_dealloc)]
-#[kani::unwind(14)]
-fn k_slow_chunk_m16() { slow_h::<16>(true, 5000, 32) }
-
-/// growth is geometric: the first size offered to the global allocator is at least twice the current chunk
-#[kani::proof]
-#[kani::stub(core_alloc::alloc::alloc, stub_alloc)]
-#[kani::stub(core_alloc::alloc::dealloc, stub_dealloc)]
-#[kani::unwind(14)]
-fn k_slow_doubles() {
-    unsafe { reset_ledger(); }
-    let b = Bump::<1>::with_min_align();
-    push_chunk(&b, 448);
-    set_finger(&b, 0); // full
-    let l = any_layout(64, 3);
-    kani::assume(l.size() > 0);
-    let r = b.try_alloc_layout(l);
-    assert!(r.is_ok());
-    unsafe {
-        assert!(LEDGER_LEN == 2);
-        assert!(LEDGER[1].size - FOOTER >= 2 * 448, "C18 new chunk at least twice the previous one");
-    }
-    kani::cover!(true);
-    core::mem::forget(b);
-}
+// NOTE: harnesses that drove the REAL slow path (`alloc_layout_slow`) and the capacity constructor through CBMC were
+// measured at > 50 GB / no verdict and have been removed; both functions are verified unbounded by Engine V
+// (slow.* and try_with_capacity.* obligations).  arena_mem.rs uses a concrete one-chunk stand-in where a harness needs a
+// "new chunk" event.
